@@ -99,9 +99,13 @@ def send(app, req):
 
 def run(case):
     app = build(case)
+    checks = case.get('check', ['c08'])
+    probes = [{'path': '/__no_such_path__'}, {'path': case['request']['path'], 'method': 'PATCH'}, dict(case['request'])]
+    # what an untouched application answers, taken BEFORE the request under test (state leaking
+    # through module- or class-level objects would otherwise taint the reference as well)
+    reference = [send(build(case), p) for p in probes] if 'c08' in checks else []
     got = send(app, case['request'])
     problems = []
-    checks = case.get('check', ['c08'])
     if 'c08' in checks:
         if 'escaped' in got:
             beh = [r.get('behavior') for r in case['routes']]
@@ -111,6 +115,13 @@ def run(case):
                 problems.append('exception escaped to the WSGI server: %s' % got['escaped'])
         elif 'status' not in got:
             problems.append('start_response never called')
+        # a (failed) request leaves the application able to serve the next one unchanged
+        for probe, fresh in zip(probes, reference):
+            after = send(app, probe)
+            if fresh.get('status') != after.get('status') or ('escaped' in fresh) != ('escaped' in after):
+                problems.append('after this request the application answers %r with %s (a fresh application: %s)'
+                                % (probe, after.get('status', after.get('escaped')), fresh.get('status', fresh.get('escaped'))))
+                break
     if 'c07' in checks and 'escaped' not in got and got.get('status', '').startswith('30'):
         from werkzeug.urls import url_parse, url_unquote
         loc = dict(got['headers']).get('Location', '')
